@@ -866,6 +866,9 @@ func (t *queryTerm) QueryConditions(pc *parserContext) (ConditionsSet, error) {
 				Name:     e.Variable.Name,
 			})
 		}
+		if err := checkRegexNesting(testContent); err != nil {
+			return nil, err
+		}
 		if _, err := binaryregexp.Compile(testContent); err != nil {
 			return nil, err
 		}
